@@ -162,6 +162,10 @@ Qed.
 Theorem legal_run vs : forall s, legal s -> legal (run_blocks s vs).
 Proof. induction vs as [|v vs IH]; intros s L; [exact L|]. cbn [run_blocks fold_left]. apply IH. apply legal_preserved. exact L. Qed.
 
+(* every state reached from a fresh client or server object by any sequence of blocks is legal *)
+Theorem legal_run_from_init c vs : legal (run_blocks (init_state c) vs).
+Proof. apply legal_run. apply legal_init. Qed.
+
 (* the `assert 0` arm of the dispatch is never taken *)
 Theorem dispatch_total_on_legal s : legal s -> ns_dead s = false -> dispatch (ns_recv s) (ns_client s) <> 4.
 Proof.
